@@ -2571,14 +2571,14 @@ impl<'m> GenerateContext<'m> {
 
     /// Get the name of an enum value
     fn get_enum_value_name(&self, id: ir::EnumValueId) -> Result<&str, GenerateError> {
-        Ok(&self.module.enum_registry.get_enum_value(id).name)
+        Ok(self.name_map.get_name_leaf(NameSymbol::EnumValue(id)))
     }
 
     /// Get the full name of an enum value
     fn get_enum_value_name_full(&self, id: ir::EnumValueId) -> Result<ScopedName, GenerateError> {
         let value = self.module.enum_registry.get_enum_value(id);
         let mut name = self.get_enum_name_full(value.enum_id).unwrap();
-        name.0.push(value.name.node.clone());
+        name.0.push(self.get_enum_value_name(id)?.to_string());
         Ok(name)
     }
 
